@@ -905,3 +905,105 @@ class ApodOracle:
             if not np.allclose(w, np.exp(-np.pi * lw * (c - c[0])), rtol=1e-9, atol=1e-300):
                 out.append("C15:exponential-closed-form:" + sig)
         return out
+
+
+# ------------------------------------------------------------------------------------ C14
+class BaselineOracle:
+    """C14: remove_background annihilates / is idempotent / linear; normalize max magnitude 1, idempotent,
+    positive factor; interp identity on own coords and exact on piecewise-linear data; left_shift removes
+    exactly n points; ndalign only rolls, keeps the first trace, maps shifted peaks onto each other"""
+    FUNCS = ("trace_local", "normalize", "interp", "left_shift", "ndalign")
+
+    def pre(self, op, st):
+        if op["op"] != "proc" or op["f"] not in self.FUNCS or op["obj"] not in st.objs:
+            return None
+        if op["f"] == "trace_local" and op["kw"].get("func") != "remove_background":
+            return None
+        return st.objs[op["obj"]].copy()
+
+    def post(self, op, st, line, pre):
+        if pre is None or line["outcome"] != "ok":
+            return []
+        from implstore import to_float
+        f, kw = op["f"], op["kw"]
+        res = st.objs[op["out"]]
+        sig = op_sig(op) + (":" + kw["func"] if f == "trace_local" else "")
+        close = lambda a, b, tol=1e-8: np.asarray(a).shape == np.asarray(b).shape and np.allclose(a, b, rtol=tol, atol=tol)
+        out = []
+        dim = kw.get("dim")
+        if f == "trace_local":
+            deg = kw["deg"]; regs = kw.get("regions")
+            k = list(pre.dims).index(dim)
+            c = np.asarray(pre.coords[dim], dtype=float)
+            rg = None if regs is None else [(to_float(a), to_float(b)) for a, b in regs]
+            rb = lambda x: dnp.remove_background(x, dim, deg, rg)
+            # annihilates polynomials of degree <= deg
+            for dg in range(deg + 1):
+                poly = pre.copy()
+                shape = [1] * poly.values.ndim; shape[k] = len(c)
+                pv = np.polyval(np.arange(1, dg + 2, dtype=float), c).reshape(shape)
+                poly.values = np.zeros_like(np.asarray(pre.values), dtype=np.asarray(pre.values).dtype) + pv * (1 + (1j if np.iscomplexobj(pre.values) else 0))
+                scale = max(1.0, float(np.max(np.abs(poly.values))))
+                if not np.allclose(rb(poly).values, 0, atol=1e-7 * scale):
+                    out.append("C14:background-not-annihilated:%s:deg%d" % (sig, deg)); break
+            twice = rb(res)
+            scale = max(1.0, float(np.max(np.abs(np.asarray(pre.values)))))
+            if not np.allclose(twice.values, res.values, atol=1e-7 * scale):
+                out.append("C14:background-not-idempotent:" + sig)
+            y = pre.copy(); y.values = np.asarray(pre.values) ** 2 - 3
+            a, b = 1.5, -2.0
+            comb = pre.copy(); comb.values = a * np.asarray(pre.values) + b * np.asarray(y.values)
+            if not np.allclose(rb(comb).values, a * np.asarray(res.values) + b * np.asarray(rb(y).values),
+                               atol=1e-7 * max(1.0, float(np.max(np.abs(comb.values))))):
+                out.append("C14:background-not-linear:" + sig)
+        elif f == "normalize":
+            v = np.abs(np.asarray(res.values))
+            if kw.get("dim") is None:
+                if abs(v.max() - 1.0) > 1e-12:
+                    out.append("C14:normalize-max:" + sig)
+            else:
+                k = list(pre.dims).index(kw["dim"])
+                if not np.allclose(v.max(axis=k), 1.0, rtol=0, atol=1e-12):
+                    out.append("C14:normalize-max-per-trace:" + sig)
+            again = dnp.normalize(res, dim=kw.get("dim"))
+            if not close(again.values, res.values, 1e-12):
+                out.append("C14:normalize-not-idempotent:" + sig)
+            with np.errstate(all="ignore"):
+                ratio = np.asarray(res.values) / np.asarray(pre.values)
+            ratio = ratio[np.isfinite(ratio)]
+            if ratio.size and (np.any(np.abs(np.imag(ratio)) > 1e-12) or np.any(np.real(ratio) <= 0)):
+                out.append("C14:normalize-factor-not-positive:" + sig)
+        elif f == "interp":
+            own = dnp.interp(pre, dim, np.asarray(pre.coords[dim], dtype=float).copy())
+            if not close(own.values, pre.values, 1e-12) or list(own.dims) != list(pre.dims):
+                out.append("C14:interp-own-coords-not-identity:" + sig)
+            # exact on piecewise-linear data: the values on a refined grid of a PL function through the nodes
+            c = np.asarray(pre.coords[dim], dtype=float)
+            k = list(pre.dims).index(dim)
+            newc = np.array([to_float(x) for x in kw["new_coord"]])
+            inside = (newc >= c.min()) & (newc <= c.max())
+            src = np.moveaxis(np.asarray(pre.values), k, 0).reshape(len(c), -1)
+            got = np.moveaxis(np.asarray(res.values), k, 0).reshape(len(newc), -1)
+            for j in range(src.shape[1]):
+                if np.iscomplexobj(src):
+                    want = np.interp(newc, c, src[:, j].real) + 1j * np.interp(newc, c, src[:, j].imag)
+                else:
+                    want = np.interp(newc, c, src[:, j])
+                if not np.allclose(got[inside, j], want[inside], rtol=1e-9, atol=1e-9):
+                    out.append("C14:interp-not-piecewise-linear:" + sig); break
+        elif f == "left_shift":
+            n = kw["n"]; k = list(pre.dims).index(dim)
+            want = np.take(np.asarray(pre.values), np.arange(n, pre.shape[k]), axis=k)
+            if not close(res.values, want, 0) or not close(res.coords[dim], np.asarray(pre.coords[dim])[n:], 0):
+                out.append("C14:left-shift:" + sig)
+        elif f == "ndalign":
+            k = list(pre.dims).index(dim)
+            n = pre.shape[k]
+            src = np.moveaxis(np.asarray(pre.values), k, 0).reshape(n, -1)
+            got = np.moveaxis(np.asarray(res.values), k, 0).reshape(n, -1)
+            if not np.array_equal(got[:, 0], src[:, 0]):
+                out.append("C14:ndalign-first-trace-touched:" + sig)
+            for j in range(src.shape[1]):
+                if not any(np.array_equal(np.roll(src[:, j], s), got[:, j]) for s in range(n)):
+                    out.append("C14:ndalign-not-a-roll:" + sig); break
+        return out
